@@ -63,6 +63,11 @@ def base_spec(rng):
             field["example"] = tabular.FIELD_KINDS[field["type"]][2][0]
             if field["type"] == "Decimal" and fmt == "delimited":
                 field["example"] = None
+    for field in fields:
+        if field["type"] == "Choice" and rng.random() < 0.3:
+            field["rule"] = "'red', \"green\""  # choices may be quoted, with either kind of quote
+        if field["type"] == "Constant" and rng.random() < 0.3:
+            field["rule"] = "'k'"
     if rng.random() < 0.15:
         # a sound CID with limits of 15 digits: the length must be consistent with the rule
         fields.append({"name": "bignumber", "type": "Integer", "rule": "0{sep}999999999999999", "length": "1{sep}15", "width": 15,
@@ -77,7 +82,8 @@ def base_spec(rng):
     checks = []
     for index in range(rng.choice([0, 1, 1, 2, 3])):
         if rng.random() < 0.5:
-            checks.append(["unique %d" % index, "IsUnique", ", ".join(rng.sample(names, rng.randint(1, min(2, len(names)))))])
+            checks.append([rng.choice(["unique %d", "100%% unique %d", "%%s is unique (%d)"]) % index, "IsUnique",
+                           ", ".join(rng.sample(names, rng.randint(1, min(2, len(names)))))])
         else:
             checks.append(["count %d" % index, "DistinctCount", "%s %s %d" % (rng.choice(names), rng.choice(["<=", ">", "=="]), rng.randint(1, 5))])
     sep = rng.choice([":", "...", "…"])
